@@ -34,6 +34,8 @@ def dispatch (op : String) (args : List String) : String :=
     | some r => r
     | none => match decodeDispatch op args with
       | some r => r
-      | none => "(err bad-op)"
+      | none => match operandDispatch op args with
+        | some r => r
+        | none => "(err bad-op)"
 
 end XV.Driver
